@@ -39,9 +39,15 @@ theorem Inv.alloc_done {c : Cfg} {o : Orders} {s : State} {m : Mem Loc} {t i0 : 
   · intro i e; simp [e]
   · intro i e; simp [e]
   · intro t' e; simp [e]
-  · intro i; simp [hp, Pc.lkAt, hpcfalse.1 i]
-  · intro i; simp [hp, Pc.lk3At, hpcfalse.2.1 i]
-  · intro i e; simp [hp, Pc.crAt, hpcfalse.2.2 i e]
+  · intro i
+    show (upd s.pc t pc' t).lkAt i = (s.pc t).lkAt i
+    rw [upd_same, hpcfalse.1 i, hp]; rfl
+  · intro i
+    show (upd s.pc t pc' t).lk3At i = (s.pc t).lk3At i
+    rw [upd_same, hpcfalse.2.1 i, hp]; rfl
+  · intro i e
+    show (upd s.pc t pc' t).crAt i = (s.pc t).crAt i
+    rw [upd_same, hpcfalse.2.2 i e, hp]; rfl
   · intro t' _; exact hnouse t'
   · exact hfv0
   · exact hlt0
@@ -91,7 +97,7 @@ theorem Inv.alloc_done {c : Cfg} {o : Orders} {s : State} {m : Mem Loc} {t i0 : 
       omega
   · simp only [PcOK, upd_same]
     rcases hshape with ⟨htls, hpc', _⟩ | ⟨_, hpc', _⟩ <;> subst hpc' <;> simp
-    exact fun _ => htls
+    exact htls
 
 /-- `allocate()` mints a new id -/
 theorem Inv.step_cr0_mint {c : Cfg} {o : Orders} {s : State} {m : Mem Loc} {t old : Nat} (inv : Inv c o s)
